@@ -59,6 +59,51 @@ func feeProduct(t *T, kind string) (*T, bool) {
 	return nil, false
 }
 
+// feesPaidTotal: t is feesPaid(_, size, p1)#0.TotalFeePaid: the call and the size argument's term.
+func feesPaidTotal(t *T) (*ssa.Call, *T) {
+	if t == nil || t.K != "field" || t.Name != "TotalFeePaid" || len(t.Args) != 1 {
+		return nil, nil
+	}
+	ex := t.Args[0]
+	if ex.K != "extract" || ex.Name != "0" || len(ex.Args) != 1 || ex.Args[0].K != "call" || !strings.Contains(ex.Args[0].Name, "(*bt.Tx).feesPaid") || len(ex.Args[0].Args) != 3 {
+		return nil, nil
+	}
+	if atomName(ex.Args[0].Args[2]) != "p1" {
+		return nil, nil
+	}
+	call, _ := ex.Args[0].V.(*ssa.Call)
+	if call == nil {
+		return nil, nil
+	}
+	return call, ex.Args[0].Args[1]
+}
+
+// feesPaidFloorFormula: "" when feesPaid computes floor(std bytes * rate) + floor(data bytes * rate) from its
+// size argument and nothing else (what rule G-fee reports on in full).
+func feesPaidFloorFormula(c *Ctx) string {
+	fn := c.P.Func("", "*Tx", "feesPaid")
+	if fn == nil {
+		return "which was not found"
+	}
+	got, _ := allocFieldStores(fn, "TxFees", newTermEnv())
+	std := `(*bt.FeeQuote).Fee(p2, "standard")#0.MiningFee`
+	data := `(*bt.FeeQuote).Fee(p2, "data")#0.MiningFee`
+	want := map[string]string{
+		"StdFeePaid":   "((p1.TotalStdBytes * uint64(" + std + ".Satoshis)) / uint64(" + std + ".Bytes))",
+		"DataFeePaid":  "((p1.TotalDataBytes * uint64(" + data + ".Satoshis)) / uint64(" + data + ".Bytes))",
+		"TotalFeePaid": "(alloc#0.DataFeePaid + alloc#0.StdFeePaid)",
+	}
+	for f, w := range want {
+		if got[f] != w {
+			return "which does not compute " + f + " by the floor formula"
+		}
+	}
+	if len(got) != len(want) {
+		return "which sets further fields"
+	}
+	return ""
+}
+
 var growthTabRe = regexp.MustCompile(`^\*g:bt\.(\w+)\[uint64\(\(\*bt\.Tx\)\.OutputCount\(p0\)\)\]$`)
 
 func ruleGChg(c *Ctx) {
@@ -231,7 +276,33 @@ func ruleGChg(c *Ctx) {
 		// fee structure
 		s1, s2, ok := binOf(fees, token.ADD)
 		var stdBytes, dataBytes *T
-		if ok {
+		if call, sizeArg := feesPaidTotal(fees); call != nil {
+			// the fee priced by feesPaid (whose floor formula is rule G-fee) on the size object as it stands at
+			// the call: the estimated sizes, with whatever this path added to them before
+			if why := feesPaidFloorFormula(c); why != "" {
+				c.Fail("G-chg", "Tx.change/fee-term/"+mode, fn.Pos(), "the fee is taken from feesPaid, "+why)
+				continue
+			}
+			eff := map[string]*T{}
+			for _, ins := range pathInstrs(d) {
+				if ins == ssa.Instruction(call) {
+					break
+				}
+				if st, isSt := ins.(*ssa.Store); isSt {
+					if fa, isFa := st.Addr.(*ssa.FieldAddr); isFa && d.Env.Term(fa.X).String() == sizeArg.String() {
+						eff[fieldName(fa.X.Type(), fa.Field)] = d.Env.Term(st.Val)
+					}
+				}
+			}
+			field := func(f string) *T {
+				if t, ok := eff[f]; ok {
+					return t
+				}
+				return &T{K: "field", Name: f, Args: []*T{sizeArg}}
+			}
+			stdBytes, dataBytes, ok = field("TotalStdBytes"), field("TotalDataBytes"), true
+			s1, s2 = nil, nil
+		} else if ok {
 			var okS, okD bool
 			if stdBytes, okS = feeProduct(s1, "standard"); okS {
 				dataBytes, okD = feeProduct(s2, "data")
